@@ -7,26 +7,38 @@ use metrique_timesource::{Time, TimeSource};
 use std::sync::atomic::{AtomicU64, Ordering};
 use std::time::{Duration, Instant, SystemTime};
 
-/// manually advanced clock; `Instant`s are built from a zeroed `Instant` (Kani has no clock)
+/// manually advanced clock; `Instant`s are built from a zeroed `Instant` (Kani has no clock).
+/// Time is kept in half-second ticks: whole seconds plus an optional 500 ms, so that the nanosecond carry/borrow
+/// paths of `Duration`/`Instant` arithmetic are exercised without putting 64-bit divisions by 10^9 on symbolic
+/// values into the formula (arbitrary nanosecond advances made one 3-episode harness exceed 30 minutes).
 #[derive(Debug)]
 struct Manual;
-static NOW_NS: AtomicU64 = AtomicU64::new(0);
+static NOW_TICKS: AtomicU64 = AtomicU64::new(0);
+fn ticks_to_duration(t: u64) -> Duration {
+    Duration::new(t >> 1, if t & 1 == 1 { 500_000_000 } else { 0 })
+}
 impl Time for Manual {
     fn now(&self) -> SystemTime {
-        SystemTime::UNIX_EPOCH + Duration::from_nanos(NOW_NS.load(Ordering::Relaxed))
+        SystemTime::UNIX_EPOCH + ticks_to_duration(NOW_TICKS.load(Ordering::Relaxed))
     }
     fn instant(&self) -> Instant {
         let base: Instant = unsafe { core::mem::zeroed() };
-        base + Duration::from_nanos(NOW_NS.load(Ordering::Relaxed))
+        base + ticks_to_duration(NOW_TICKS.load(Ordering::Relaxed))
     }
 }
+/// advance by an arbitrary number of half seconds (0 ..= 65535)
 fn advance() -> u64 {
-    let d: u32 = kani::any();
-    NOW_NS.store(NOW_NS.load(Ordering::Relaxed) + d as u64, Ordering::Relaxed);
+    let d: u16 = kani::any();
+    NOW_TICKS.store(NOW_TICKS.load(Ordering::Relaxed) + d as u64, Ordering::Relaxed);
     d as u64
 }
 fn now_ns() -> u64 {
-    NOW_NS.load(Ordering::Relaxed)
+    NOW_TICKS.load(Ordering::Relaxed)
+}
+/// a reported duration in ticks (and it must be a whole number of ticks)
+fn ticks_of(d: Duration) -> u64 {
+    assert!(d.subsec_nanos() == 0 || d.subsec_nanos() == 500_000_000, "reported duration is a sum/difference of clock readings");
+    d.as_secs() * 2 + (d.subsec_nanos() != 0) as u64
 }
 
 /// reference model: total of completed, kept spans since the last clear/overwrite; None if there is none
@@ -40,7 +52,7 @@ impl Model {
 }
 
 fn closed(sw: &Stopwatch) -> Option<u64> {
-    sw.close().map(|d| d.as_nanos() as u64)
+    sw.close().map(ticks_of)
 }
 
 /// one borrowed-guard episode with a symbolic ending
@@ -55,7 +67,7 @@ fn borrowed_episode(sw: &mut Stopwatch, m: &mut Model) {
         0 => drop(g),
         1 => {
             let d = g.stop();
-            assert!(d.as_nanos() as u64 == span, "stop returns the span");
+            assert!(ticks_of(d) == span, "stop returns the span");
         }
         2 => g.discard(),
         _ => g.overwrite(),
@@ -69,9 +81,9 @@ fn borrowed_episode(sw: &mut Stopwatch, m: &mut Model) {
 
 // @check C18 quick timeout=1800 mem=14
 // @encodes metrique::timers::{Stopwatch::new_from_timesource, start, clear, TimerGuard::{stop, discard, overwrite, drop}, <&Stopwatch as CloseValue>::close}, metrique_timesource::{TimeSource::custom, Instant::elapsed}
-// @bounds 3 borrowed-guard episodes, each ending symbolically in drop / stop / discard / overwrite, a symbolic clear in between; every clock advance an arbitrary u32 of nanoseconds (incl. 0); closed value checked after every episode
+// @bounds 2 borrowed-guard episodes, each ending symbolically in drop / stop / discard / overwrite, a symbolic clear in between; every clock advance an arbitrary number (0..=65535) of half seconds, so whole seconds and 500 ms carries/borrows occur; closed value checked after every episode
 // @oracle reported duration == reference model (sum of kept spans since last clear/overwrite), None when there is none
-// @outside time_source() resolution order (thread-local with destructor: Kani cannot compile it); wall-clock durations above 2^32 ns per advance
+// @outside time_source() resolution order (thread-local with destructor: Kani cannot compile it); advances that are not multiples of 500 ms
 #[kani::proof]
 #[kani::unwind(3)]
 pub fn stopwatch_borrowed_guards() {
@@ -87,10 +99,8 @@ pub fn stopwatch_borrowed_guards() {
     }
     advance();
     borrowed_episode(&mut sw, &mut m);
-    assert!(closed(&sw) == m.total);
-    borrowed_episode(&mut sw, &mut m);
     kani::cover!(m.total.is_none(), "nothing kept");
-    kani::cover!(m.total.is_some() && m.total.unwrap() > 1_000_000, "long total");
+    kani::cover!(m.total.is_some() && m.total.unwrap() > 100_000 && m.total.unwrap() % 2 == 1, "long total with a half second");
     assert!(closed(&sw) == m.total, "stopwatch reports the total of kept spans");
 }
 
@@ -126,7 +136,7 @@ pub fn stopwatch_owned_guards_overlap() {
             0 => drop(g),
             1 => {
                 let d = g.stop();
-                assert!(d.as_nanos() as u64 == span);
+                assert!(ticks_of(d) == span);
             }
             2 => g.discard(),
             _ => g.overwrite(),
@@ -148,7 +158,7 @@ pub fn stopwatch_owned_guards_overlap() {
 
 // @check C18 quick timeout=900 mem=14
 // @encodes metrique::timers::{Timer::start_now_with_timesource, stop, <&Timer as CloseValue>::close}
-// @bounds create, advance, optional first stop, advance, optional second stop, advance, close; advances arbitrary u32 ns
+// @bounds create, advance, optional first stop, advance, optional second stop, advance, close; advances arbitrary multiples of 500 ms
 // @oracle reports creation -> first stop, or creation -> close if never stopped; repeated stops return the same value and change nothing
 #[kani::proof]
 #[kani::unwind(3)]
@@ -161,7 +171,7 @@ pub fn timer_first_stop_wins() {
     if stop1 {
         let d = t.stop();
         expected = Some(now_ns() - t0);
-        assert!(d.as_nanos() as u64 == expected.unwrap());
+        assert!(ticks_of(d) == expected.unwrap());
     }
     advance();
     let stop2: bool = kani::any();
@@ -170,11 +180,11 @@ pub fn timer_first_stop_wins() {
         if expected.is_none() {
             expected = Some(now_ns() - t0);
         }
-        assert!(d.as_nanos() as u64 == expected.unwrap(), "repeated stops change nothing");
+        assert!(ticks_of(d) == expected.unwrap(), "repeated stops change nothing");
     }
     advance();
     kani::cover!(stop1 && stop2, "stopped twice");
     kani::cover!(!stop1 && !stop2, "never stopped");
-    let closed = (&t).close().as_nanos() as u64;
+    let closed = ticks_of((&t).close());
     assert!(closed == expected.unwrap_or(now_ns() - t0), "first stop, else time of close");
 }
